@@ -44,6 +44,7 @@ type recProducer struct {
 	errs                 chan *sarama.ProducerError
 	mu                   sync.Mutex
 	got                  []*sarama.ProducerMessage
+	gotBytes             [][]byte
 	done                 chan struct{}
 	withSucc             bool
 }
@@ -53,6 +54,13 @@ func newRec(withSucc bool) *recProducer {
 	go func() {
 		defer close(p.done)
 		for m := range p.in {
+			// the bytes are taken when the message is handed over: a producer may reuse its buffer once the
+			// message has been acknowledged
+			if b, err := m.Value.Encode(); err == nil {
+				p.gotBytes = append(p.gotBytes, append([]byte(nil), b...))
+			} else {
+				p.gotBytes = append(p.gotBytes, nil)
+			}
 			p.mu.Lock()
 			p.got = append(p.got, m)
 			p.mu.Unlock()
@@ -73,6 +81,10 @@ func (p *recProducer) Close() error                              { close(p.in); 
 type want struct {
 	varint map[protowire.Number]uint64
 	str    map[protowire.Number]string
+	// fields the schema has and the record has a value for, which the shipped convertor leaves out today
+	// (FlowType2.FlowEndReason = 35, TcpState = 36): absent is accepted, present must be the record's value
+	optVarint map[protowire.Number]uint64
+	optStr    map[protowire.Number]string
 }
 
 func utf8str(r *rand.Rand) string {
@@ -175,7 +187,8 @@ func genRec(r *rand.Rand) (agg.Rec, want) {
 			}
 		}
 	}
-	w := want{varint: map[protowire.Number]uint64{}, str: map[protowire.Number]string{}}
+	w := want{varint: map[protowire.Number]uint64{}, str: map[protowire.Number]string{},
+		optVarint: map[protowire.Number]uint64{35: uint64(rec.EndReason)}, optStr: map[protowire.Number]string{36: rec.TCPState}}
 	vi := func(n protowire.Number, v uint64) {
 		if v != 0 {
 			w.varint[n] = v
@@ -322,6 +335,7 @@ func oneStream(c *hx.Ctx, k int, r *rand.Rand) {
 		for i := 0; i < totalRecs; i++ {
 			mock.ExpectInputWithMessageCheckerFunctionAndSucceed(func(m *sarama.ProducerMessage) error {
 				b, _ := m.Value.Encode()
+				b = append([]byte(nil), b...)
 				mmu.Lock()
 				mockGot = append(mockGot, b)
 				mockTopics = append(mockTopics, m.Topic)
@@ -371,10 +385,10 @@ func oneStream(c *hx.Ctx, k int, r *rand.Rand) {
 		c.Add("streams_through_sarama_mock", 1)
 	} else {
 		rec.Close()
-		for _, m := range rec.got {
-			b, err := m.Value.Encode()
-			if err != nil {
-				c.Violation(k, "value-encode", err.Error(), nil)
+		for i, m := range rec.got {
+			b := rec.gotBytes[i]
+			if b == nil {
+				c.Violation(k, "value-encode", "the message value could not be encoded when it was handed to the producer", nil)
 				return
 			}
 			payloads = append(payloads, b)
@@ -438,6 +452,9 @@ func checkProto(b []byte, w want) string {
 			}
 			b = b[n:]
 			wv, ok := w.varint[num]
+			if ov, opt := w.optVarint[num]; !ok && opt && ov == v {
+				continue
+			}
 			if !ok || wv != v {
 				return fmt.Sprintf("field %d = %d, expected %d (present=%v)", num, v, wv, ok)
 			}
@@ -448,6 +465,9 @@ func checkProto(b []byte, w want) string {
 			}
 			b = b[n:]
 			ws, ok := w.str[num]
+			if os, opt := w.optStr[num]; !ok && opt && os == string(v) {
+				continue
+			}
 			if !ok || ws != string(v) {
 				return fmt.Sprintf("field %d = %q, expected %q (present=%v)", num, clipS(string(v)), clipS(ws), ok)
 			}
